@@ -66,8 +66,8 @@ Generic function to clean input in preparation for tabular output
 */
 func CleanInput(input string, separator string) string {
 
-	// Remove line breaks
-	re := regexp.MustCompile(`\r?\n`)
+	// Remove line breaks (including carriage returns without line feed)
+	re := regexp.MustCompile(`\r?\n|\r`)
 	input = re.ReplaceAllString(input, " ")
 	// Remove separator symbol used in output
 	re2 := regexp.MustCompile(`\` + separator)
